@@ -77,6 +77,23 @@ func arb[T signal.SignalTypes](k uint64) T {
 	return nonzero[T](k)
 }
 
+// nice returns an "ordinary" sample: for floating types a value in [-1.25,1.25]
+// in steps of 1/1000 (the range conversions care about, a little beyond it to
+// reach clipping), for integer types a small value around zero.
+func nice[T signal.SignalTypes](k uint64) T {
+	var v T
+	x := int64(k%2501) - 1250
+	switch any(&v).(type) {
+	case *float32:
+		f := float32(x) / 1000
+		return *(*T)(unsafe.Pointer(&f))
+	case *float64:
+		f := float64(x) / 1000
+		return *(*T)(unsafe.Pointer(&f))
+	}
+	return T(x % 100)
+}
+
 func mix64(h *uint64, v uint64) {
 	*h ^= v
 	*h *= 1099511628211
@@ -108,7 +125,11 @@ func mkDst[S, T signal.SignalTypes](name string, conv func(*signal.Buffer[S], *s
 		c := dst.Channels()
 		src := signal.Alloc[S](signal.Allocator{Channels: c, Length: srcFrames, Capacity: srcFrames})
 		for i := 0; i < src.Len(); i++ {
-			src.SetSample(i, arb[S](seed+uint64(i)))
+			if seed%3 == 0 {
+				src.SetSample(i, nice[S](seed+uint64(i)*131))
+			} else {
+				src.SetSample(i, arb[S](seed+uint64(i)))
+			}
 		}
 		return conv(src, dst)
 	}}
